@@ -45,6 +45,62 @@ json.dump(res, open(out, "w"))
 '''
 
 
+SESSION_REPLAY = r'''
+import sys, json, warnings, logging
+warnings.filterwarnings("ignore"); logging.disable(logging.CRITICAL)
+from pathlib import Path
+from harness import tlc
+from harness.drive import session
+files, out = json.loads(sys.argv[1]), sys.argv[2]
+res = []
+for f in files:
+    beh = tlc.parse_sim_file(Path(f))
+    r = session.replay(beh, ["h0", "h1"])
+    r["actions"] = [session._js(s["last"]) for _, s in beh[1:]]
+    res.append(r)
+json.dump(res, open(out, "w"))
+'''
+
+
+def session_part(ctx) -> dict:
+    """spec/Session.tla: registration and shutdown handshake around the run (messages of the same acknowledged layer)."""
+    c = {"Host": '{"h0", "h1"}', "Faults": "1", "MaxReg": "2", "ShutdownRetries": "TRUE"}
+    cfg = tlc.cfg_text(spec="FairSpec", constants=c, invariants=["TypeOK", "EnvExact", "RunsWithAll", "EndedMeansGone"],
+                       properties=["AllShutDown"], constraints=["NetBounded"])
+    d = tlc.stage(ctx.scratch, "session_mc", ["Session"], {"Session.cfg": cfg})
+    r = tlc.check(d, "Session", workers=6, coverage=True, deadlock=False, timeout=1800, light=False)
+    tlc.require_clean(r, "Session")
+    for v in r.violated:
+        ctx.violate(f"session_model:{v}", f"TLC: {v} violated in spec/Session.tla", {"tlc": r.trace[:6000]}, clause=v)
+    c2 = dict(c, Faults="2")
+    cfg2 = tlc.cfg_text(spec="Spec", constants=c2, constraints=["NetBounded"])
+    d2 = tlc.stage(ctx.scratch, "session_sim", ["Session"], {"Session.cfg": cfg2})
+    out = d2 / "b"
+    out.mkdir(exist_ok=True)
+    num = 200 if ctx.quick else 2000
+    rs = tlc.check(d2, "Session", workers=1, timeout=900, simulate=f"file={out}/b,num={num}", depth=30, seed=ctx.seed + 21, deadlock=False)
+    files = sorted(out.glob("b_*"))
+    if not files:
+        raise MachineryError("no behaviours from TLC simulation of Session:\n" + rs.out[-2000:])
+    rf = ctx.scratch / "session_replay.json"
+    p = subprocess.run([sys.executable, "-W", "ignore", "-c", SESSION_REPLAY, json.dumps([str(f) for f in files]), str(rf)], cwd=ROOT,
+                       stdout=subprocess.PIPE, stderr=subprocess.STDOUT, text=True, timeout=1800)
+    if p.returncode != 0 or not rf.exists():
+        raise MachineryError("session replay failed:\n" + p.stdout[-3000:])
+    reps = json.loads(rf.read_text())
+    for x in reps:
+        mm = x.get("mismatch")
+        if not mm:
+            continue
+        if "harness_error" in mm:
+            raise MachineryError(f"session replay harness error: {mm}")
+        fields = sorted(mm["diffs"])
+        ctx.violate(f"session:{mm['action'][0]}:" + "+".join(fields),
+                    f"real Bridge registration/shutdown deviates from spec/Session.tla at step {mm['step']} ({mm['action']}): {mm['diffs']}",
+                    {"actions": x["actions"][: mm["step"]], "mismatch": mm}, clause="+".join(fields))
+    return {"states": r.distinct, "transitions": r.generated, "replayed": len(reps), "steps": sum(x["steps"] for x in reps)}
+
+
 def run(ctx):
     logging.disable(logging.CRITICAL)
     scratch = ctx.scratch
@@ -127,7 +183,11 @@ def run(ctx):
         ctx.violate("senders:" + "+".join(sorted(names)), f"one Listener, deliveries {seqs[i-1]}: {sorted(names)}; observed {res2[i-1]}",
                     {"deliveries": seqs[i - 1], "observed": res2[i - 1]}, clause="+".join(sorted(names)))
     ctx.coverage["multi_sender_sequences"] = len(seqs)
+    sess = session_part(ctx)
+    states += sess["states"]
+    trans += sess["transitions"]
     ctx.coverage.update({
+        "session_model_states": sess["states"], "session_behaviours_replayed": sess["replayed"], "session_steps": sess["steps"],
         "states": states, "transitions": trans, "traces_validated_against_impl": len(reps), "replayed_steps": steps,
         "frame_shapes_checked": len(res),
         "model_runs": [{"name": n, "distinct": r.distinct, "depth": r.depth} for n, r in results],
